@@ -1,20 +1,4 @@
-mod c02;
-mod c09;
-mod c10;
-mod c16;
-mod c17;
-mod c18;
-mod gen;
-mod inv;
-mod model;
-mod ops;
-mod ops2;
-mod parts;
-mod props;
-mod runner;
-mod store;
-mod unit;
-mod world;
+use mverif::*;
 
 use runner::{Violation, WorkerResult};
 use serde_json::{json, Value};
